@@ -10,6 +10,7 @@ import (
 
 	erpc "github.com/henrylee2cn/erpc/v6"
 	"github.com/henrylee2cn/erpc/v6/socket"
+	"github.com/henrylee2cn/erpc/v6/utils"
 )
 
 // ---- live handlerCtx cases: handlers dirty their context, the next invocation reports what it sees
@@ -144,6 +145,14 @@ type liveEnv struct {
 	probeOps [][]dact
 	baseline map[int][]string // shape -> rendered [view1 view2 reply] with seq/size zeroed
 	lastOps  []string         // model ops of the most recent probe
+	copies   []keptCopy       // metadata copies (ctx.CopyMeta) handed to earlier probe handlers
+	copyFail string
+}
+
+// keptCopy is what a handler got from ctx.CopyMeta() and still holds.
+type keptCopy struct {
+	args *utils.Args
+	want string
 }
 
 var theLive *liveEnv
@@ -226,7 +235,9 @@ func Probe(ctx erpc.CallCtx, arg *[]byte) ([]byte, *erpc.Status) {
 	l := theLive
 	rc := ctx.(erpc.ReadCtx)
 	v1 := l.view(rc, ctx.Output(), arg)
+	cp := ctx.CopyMeta() // a private copy of the request metadata, kept beyond this invocation
 	l.mu.Lock()
+	l.copies = append(l.copies, keptCopy{args: cp, want: visitArgs(ctx.Input().Meta())})
 	ops := l.probeNew
 	l.mu.Unlock()
 	for _, a := range ops {
@@ -359,6 +370,17 @@ func (l *liveEnv) probe(shape int) (obs, norm []string, ptr string, ok bool) {
 	if len(l.views) != 2 || len(l.ptrs) != 1 {
 		return nil, nil, "", false
 	}
+	// copies handed out earlier must still read as they did, although their source contexts
+	// have been recycled and refilled since; the oldest ones are released (and may be reused)
+	for i, c := range l.copies {
+		if got := visitArgs(c.args); got != c.want && l.copyFail == "" {
+			l.copyFail = fmt.Sprintf("copy #%d of %d: handed out as %s, now reads %s", i, len(l.copies), clip(c.want), clip(got))
+		}
+	}
+	for len(l.copies) > 6 {
+		utils.ReleaseArgs(l.copies[0].args)
+		l.copies = l.copies[1:]
+	}
 	v1, v2, rp := l.views[0], l.views[1], l.reply
 	obs = []string{v1.render(), v2.render(), rp.render()}
 	norm = []string{zeroed(v1).render(), zeroed(v2).render(), rp.render()}
@@ -483,6 +505,10 @@ func (l *liveEnv) runCase(idx int) *history {
 	if !ok {
 		l.st.Fail(idx, "ctx-probe-failed", "the probe call after a soiling history did not complete normally", fmt.Sprintf("shape=%d", shape))
 		return nil
+	}
+	if l.copyFail != "" {
+		l.st.Fail(idx, "copymeta-changed", "a metadata copy obtained with ctx.CopyMeta() changed after its context was recycled: "+l.copyFail, fmt.Sprintf("shape=%d", shape))
+		l.copyFail = ""
 	}
 	h := &history{kind: "ctx", via: "reset"}
 	if prev, seen := l.lastUse[ptr]; seen {
